@@ -12,6 +12,8 @@ import SpiceEv.Cmd.Gen
 import SpiceEv.Cmd.Costs
 import SpiceEv.Cmd.ScheduleGen
 import SpiceEv.Cmd.Battery
+import SpiceEv.Cmd.Strategies
+import SpiceEv.Cmd.Distributed
 open SpiceEv
 
 def allHandlers : List (String × Handler) :=
@@ -20,6 +22,8 @@ def allHandlers : List (String × Handler) :=
   ++ Cmd.StrategyUtil.handlers
   ++ Cmd.Util.handlers
   ++ Cmd.GenCsv.handlers
+  ++ Cmd.Strategies.handlers
+  ++ Cmd.Distributed.handlers
   ++ Cmd.Gen.handlers
   ++ Cmd.Costs.handlers
   ++ Cmd.ScheduleGen.handlers
